@@ -385,9 +385,58 @@ def r135(facts, res):
     res.floor(R, 'enum variants written as paths into generated code', n, 16)
 
 
+def r136(facts, res):
+    """The generated `lexerdef()` rebuilds the lexer through `LRNonStreamingLexerDef::from_rules(start_states, rules)` from the
+    rule list the builder serialised; the run-time path stores the parser's list as it is.  Both lexers run the same rules only
+    if from_rules stores what it is given: the `rules` and `start_states` fields of the value it builds are the parameters, moved,
+    and nothing in the function takes the parameters by `&mut` (retain / sort / truncate / dedup ...) before that."""
+    R = 'R13.6'
+    bs = [b for b in facts.lib_bodies(['lrlex']) if b.name == 'from_rules' and b.kind != 'closure' and 'LRNonStreamingLexerDef' in b.path]
+    if len(bs) != 1:
+        return res.lost(R, 'LRNonStreamingLexerDef::from_rules not found (%d)' % len(bs))
+    b = bs[0]
+    adt = facts.adt('lrlex::lexer::LRNonStreamingLexerDef')
+    names = [f['name'] for f in adt['variants'][0]['fields']] if adt else []
+    params = {}
+    for i in range(1, b.arg_count + 1):
+        ty = b.lty(i)
+        if 'Vec<' in ty and 'Rule<' in ty:
+            params['rules'] = i
+        elif 'Vec<' in ty and 'StartState' in ty:
+            params['start_states'] = i
+    aggs = [(bb, st) for bb, i, st in b.stmts() if st['k'] == 'assign' and isinstance(st['rv'].get('agg'), dict) and st['rv']['agg'].get('adt', '').endswith('lexer::LRNonStreamingLexerDef')]
+    if len(params) != 2 or not aggs or not names:
+        return res.lost(R, 'from_rules: parameters (%s) or the built value (%d) not recognised' % (sorted(params), len(aggs)))
+    for fld, pi in sorted(params.items()):
+        key = 'from_rules/%s' % fld
+        bad = []
+        for bb, st in aggs:
+            ops = st['rv'].get('ops') or []
+            if fld not in names or names.index(fld) >= len(ops):
+                bad.append('field not found in the built value')
+                continue
+            l = op_local(ops[names.index(fld)])
+            root = b.root(l, through=(), stop_named=False)[0] if l is not None else None
+            if root != pi:
+                bad.append('line %s: the `%s` stored are not the parameter as given (they are computed from something else)' % (st.get('line'), fld))
+        for bb, t in b.calls():
+            for a in t['args']:
+                l = op_local(a)
+                if l is None:
+                    continue
+                if b.root(l, stop_named=False)[0] == pi and (b.lty(l).startswith('&mut') or 'move' in a and b.lty(l).startswith('alloc::vec::Vec')):
+                    bad.append('line %s: `%s` is handed to `%s` before it is stored' % (t.get('line'), fld, cname(t)))
+        if bad:
+            res.bad(R, key, loc_of(b), '; '.join(sorted(set(bad))[:2]) + ': the lexer that generated code rebuilds no longer has the %s the builder serialised, '
+                    'while the run-time lexer keeps them all' % fld, {'function': b.path})
+        else:
+            res.ok(R, key, loc_of(b), 'stored exactly as given: a move of the parameter, no call takes it by &mut or by value')
+
+
 def run(facts, res):
     r131(facts, res)
     r132(facts, res)
     r133(facts, res)
     r134(facts, res)
     r135(facts, res)
+    r136(facts, res)
